@@ -15,10 +15,15 @@ func init() {
 			g8Registry(c)
 			g13Fields(c)
 			g8CallsReachAdd(c.Repo, c.Rep)
+			g8EveryRecordedCallRegistered(c.Repo, c.Rep)
 			g14VisitContinues(c.Repo, c.Rep)
 			g16Load(c)
 			g12HasUndefined(c)
 			g20AliasInjective(c)
+			g14ReservedBeforeNaming(c)
+			// which operator or helper is emitted for a component is decided by these predicates: accepting a type Go cannot
+			// compare or copy gives text that does not type-check
+			runG9(c, "equal.canEqual", "deepcopy.canCopy", "contains.canEqual", "derive.IsComparable")
 			c.Rep.floor("G11", 6)
 			c.Rep.floor("G1", 350)
 			runR_C01(c)
@@ -109,6 +114,7 @@ func init() {
 		run: func(c *Ctx) {
 			runG4(c.Repo, c.Rep)
 			runG10(c.Repo, c.Rep)
+			g10DeleteRemoves(c.Repo, c.Rep)
 			g14ReservedProvenance(c)
 			g14VisitContinues(c.Repo, c.Rep)
 			g16Load(c)
@@ -127,6 +133,9 @@ func init() {
 	checks["C08"] = &checkDef{
 		run: func(c *Ctx) {
 			runG6(c.Repo, c.Rep)
+			// the derived file's path comes from the first listed user file: a package none of whose files is listed gets a path
+			// relative to the working directory (G10: every user file is listed, print-or-delete goes to (*pkg).Filename())
+			runG10(c.Repo, c.Rep)
 			g16PosOrder(c.Repo, c.Rep)
 			g14ReservedProvenance(c)
 			c.Rep.floor("G6", 8)
@@ -171,6 +180,8 @@ func init() {
 			runG11(c.Repo, c.Rep)
 			g14ReservedProvenance(c)
 			g14AddNameUsed(c.Repo, c.Rep)
+			g8EveryRecordedCallRegistered(c.Repo, c.Rep)
+			g14ReservedBeforeNaming(c)
 			g17ArgTypesFromDeclaration(c)
 			g16Eq(c)
 			g21ReserveEveryCalledName(c.Repo, c.Rep)
